@@ -78,7 +78,28 @@ func genSeqCache(prop string, lvl int) []*Scenario {
 	return out
 }
 
-func genC01(tier string) []*Scenario { return genSeqCache("C01", lvlOf(tier)) }
+// resizeAlphabet: one key, few TTLs, plus the macro events that make the table grow and shrink (and Clear):
+// "an unexpired value is never dropped by internal table resizing" for entries in every expiry state.
+func resizeAlphabet() []CIn {
+	ev := []CIn{{Op: CAdvance, D: 1}, {Op: CAdvance, D: 2}, {Op: CGet}, {Op: CGetWithTTL}, {Op: CCount}, {Op: CRange}, {Op: CItems},
+		{Op: CDelete}, {Op: CDeleteExpired}, {Op: CClear}, {Op: CBulkInsert}, {Op: CBulkDelete}}
+	for _, d := range []time.Duration{durNoExp, 1, 2} {
+		ev = append(ev, CIn{Op: CSet, V: 1, D: d}, CIn{Op: CGetOrSet, V: 2, D: d}, CIn{Op: CCompute, V: 3, Fn: FnSet, D: d})
+	}
+	ev = append(ev, CIn{Op: CSet, K: 1, V: 4, D: 2}, CIn{Op: CGet, K: 1}, CIn{Op: CGetAndRefresh, D: 2})
+	return ev
+}
+
+func genC01(tier string) []*Scenario {
+	out := genSeqCache("C01", lvlOf(tier))
+	for twin := 0; twin < 3; twin++ {
+		cfg := CacheCfg{Twin: twin, HasIvl: true, Ivl: 0}
+		name := fmt.Sprintf("C01/seq-with-resizes/%s", twinNames[twin])
+		sp := newCacheSeqSpec(name, cfg, durNoExp, twin == 1, resizeAlphabet(), 0, "C01")
+		out = append(out, &Scenario{Name: name, Prop: "C01", Seq: sp, ExpectOutcomes: 2})
+	}
+	return out
+}
 
 var e2Assumptions = []string{
 	"single goroutine; virtual clock (package time is substituted in package cache); janitor disabled (cleanup interval 0)",
